@@ -63,3 +63,24 @@ Theorem C16_md_clock : forall (F : list R -> list R) m dt N s,
   MDP.tm (MD.md_run ROps F m dt N s) = MDP.tm s + INR N * dt.
 Proof. intros. apply MDP.md_run_time. Qed.
 Print Assumptions C16_md_clock.
+
+(* the assembled single-surface MD run: the stopping rule and log schedule above with the positions of the assembled MD loop
+   (Model/MD.md_run, tied to whole real AdiabaticMD runs by Run/RMD.chkM) as the position sequence - the run stops at the FIRST
+   check index at which a limit is met for the positions the dynamics actually produces, and every logged time is the clock
+   of the loop after that many passes *)
+Theorem C16_md_simulate_assembled :
+  forall (c : cfg (T:=R)) (n0 : nat) (F : list R -> list R) m (x v : list R) (t0 : R) (fuel : nat) (restarting : bool) log N,
+  let pos := fun k => fst (MDP.xv (MD.md_run ROps F m (dt c) k (x, v, t0))) in
+  simulate ROps fuel c restarting n0 t0 pos = Some (log, N) ->
+  ((stopP c n0 t0 pos 0 /\ log = [] /\ N = n0)
+   \/ (~ stopP c n0 t0 pos 0 /\ exists K, (0 < K)%nat /\ N = (n0 + K)%nat /\ stopP c n0 t0 pos K
+        /\ (forall j, (j < K)%nat -> ~ stopP c n0 t0 pos j)
+        /\ log = (if negb restarting && logs c n0 then [(n0, t0)] else [])
+                 ++ sched c n0 t0 0 K ++ [(N, tk c t0 K)]))
+  /\ (forall k, tk c t0 k = MDP.tm (MD.md_run ROps F m (dt c) k (x, v, t0))).
+Proof.
+  intros c n0 F m x v t0 fuel restarting log N pos H. split.
+  - eapply simulate_spec; eassumption.
+  - intros k. rewrite MDP.md_run_time. unfold tk. reflexivity.
+Qed.
+Print Assumptions C16_md_simulate_assembled.
